@@ -172,7 +172,15 @@ func ConcretizeNum(n J, rep int) cty.Value {
 			panic("bad dec " + asS(d))
 		}
 		// the same decimal at several precisions (these are in general different numbers)
-		prec := []uint{512, 53, 64, 24}[rep%4]
+		switch rep % 6 {
+		case 4: // the float64 nearest to the decimal, carried at 512 bits (what arithmetic with a high-precision operand produces)
+			g := new(big.Float).SetPrec(53).SetRat(r)
+			return cty.NumberVal(new(big.Float).SetPrec(512).Set(g))
+		case 5: // the 24-bit value carried at 64 bits
+			g := new(big.Float).SetPrec(24).SetRat(r)
+			return cty.NumberVal(new(big.Float).SetPrec(64).Set(g))
+		}
+		prec := []uint{512, 53, 64, 24}[rep%6%4]
 		f := new(big.Float).SetPrec(prec).SetRat(r)
 		return cty.NumberVal(f)
 	}
